@@ -4,7 +4,7 @@
    No Extract Constant, no further Extract Inductive. *)
 From Coq Require Import ExtrOcamlBasic.
 From LoraV Require Import Base.Prelude Model.Toa Spec.Airtime Model.Ldro Spec.LdroSpec
-  Base.Bytes Crypto.AES Crypto.CMAC Model.Frame Spec.L2Frame Model.Exec Model.MacCmd Gen.CmdTables Model.MacFields Model.Region Model.Mac.
+  Base.Bytes Crypto.AES Crypto.CMAC Model.Frame Spec.L2Frame Model.Exec Model.MacCmd Gen.CmdTables Model.MacFields Model.Region Model.Mac Model.Persist.
 Extraction Language OCaml.
 Extraction "model.ml"
   Toa.toa_us Toa.toa_safe Toa.ldro Toa.t_sym_us Toa.bw_hz
@@ -25,4 +25,5 @@ Extraction "model.ml"
   CmdTables.dl_mc_table CmdTables.ul_mc_table
   MacFields.cr_new MacFields.mc_set MacFields.mc_build MacFields.mc_get MacFields.to_hex_msb MacFields.from_hex_msb
   Exec.x_join_otaa Exec.x_send Exec.x_mac_handle_rx Exec.x_mac_rx2_complete Exec.x_rxc_config Exec.x_next_fcnt_down
-  Mac.mac_new Mac.session_new Mac.set_adr Mac.set_datarate Mac.get_rx_delay Mac.with_state Mac.with_region Region.jc_default Region.region_new.
+  Mac.mac_new Mac.session_new Mac.set_adr Mac.set_datarate Mac.get_rx_delay Mac.with_state Mac.with_region Region.jc_default Region.region_new
+  Persist.ser_session Persist.de_session Persist.restore.
